@@ -87,6 +87,13 @@ mutual
           | none => false)
         | .input _ => false
         | ty =>
+          match loneG sub with
+          | some g =>
+            -- a lone spread of a fragment on the abstract type itself: what the fragment's own type accepts
+            (match q.fragments[g]? with
+             | some f => accepts (conformsLooseAbs s o b ty f.sels) (gtyOf sf.ty.quals) v
+             | none => false)
+          | none =>
           accepts (fun j => match j with
             | .obj kvs' =>
               looseSelsS s q o b sub kvs' &&
@@ -196,6 +203,9 @@ mutual
           envSelsS e c (pfx ++ c.cs.camel (a.getD sf.name)) sub
         | .input _ => True
         | ty =>
+          match loneG sub with
+          | some g => AliasEnv e (pfx ++ c.cs.camel (a.getD sf.name)) (fragName c g) ∧ FragEnvS e c g
+          | none =>
           AbsEnv e (pfx ++ c.cs.camel (a.getD sf.name)) (fieldsB c (pfx ++ c.cs.camel (a.getD sf.name)) ty sub)
             (variantsV c (pfx ++ c.cs.camel (a.getD sf.name)) ty (marks c.q sub)) ∧
           (∀ vt ∈ vtsOfTy c.s ty, VarEnv e c (pfx ++ c.cs.camel (a.getD sf.name)) vt sub) ∧
@@ -1074,6 +1084,30 @@ end AccS
 section AccS2
 variable (e : Env) (c : Ctx)
 
+/-- a lone spread of a fragment on the abstract type itself: the type alias of the fragment's type accepts what that type
+    accepts -/
+theorem accAliasB (name : String) (ty : TypeId) (g : Nat) (fr : RFragment) (hfr : c.q.fragments[g]? = some fr)
+    (hty : absHyp c.s ty) (hok : fragOkB c.s c.q c.o ty g = true)
+    (ha : AliasEnv e name (fragName c g)) (hf : FragEnvS e c g) (b : Bool) (fd : Nat)
+    (hfd : 2 * selsDepth fr.sels + 4 ≤ fd) (j : Json) :
+    okB (dePath e b fd name j) = conformsLooseAbs c.s c.o b ty fr.sels j := by
+  obtain ⟨fr', hfr', hon, _, hv, hokf⟩ := fragOkB_parts hok
+  rw [hfr] at hfr'; cases hfr'
+  obtain ⟨hp, _, n, pub, hfind⟩ := ha
+  unfold FragEnvS at hf
+  rw [hfr] at hf
+  have hisabs : fr.on.isAbstract = true := by
+    rw [hon]; cases ty <;> simp_all [absHyp, TypeId.isAbstract]
+  rw [hon] at hisabs
+  simp only [hon, hisabs, ↓reduceIte] at hf
+  have hname : fragName c g = fr.name := by simp [fragName, hfr]
+  rw [hname] at hfind
+  obtain ⟨fd', rfl⟩ : ∃ k, fd = k + 1 := ⟨fd - 1, by omega⟩
+  have : dePath e b (fd' + 1) name j = dePath e b fd' fr.name j := by
+    rw [dePath]; simp only [dePrim_none hp, hfind, deTyWith]
+  rw [this]
+  exact abs_accepts_iff e c _ _ ty fr.sels hv hokf hf.2 hf.1 b fd' (by omega) j
+
 mutual
   theorem accSelS : ∀ (x : Sel) (pfx : String), AccSelS e c pfx x
     | .field a fid sub, pfx => by
@@ -1134,28 +1168,48 @@ mutual
           simp only [hid, Bool.and_eq_true] at hty henv ⊢
           simp only [fieldOfSelV, hsf, leafNameV, hid, Option.some.injEq] at hf
           subst hf
-          obtain ⟨hs, hve, hesub⟩ := henv
-          have hID : pfx ++ c.cs.camel (a.getD sf.name) ≠ "ID" := by
-            unfold AbsEnv at hs; split at hs
-            · exact hs.2.1
-            · exact hs.1.2.1
-          rw [deField_plain _ _ _ _ hID, looseLambdaAbsS]
-          exact (ok_iff_accepts _ _ (conformsLooseAbsS c.s c.q c.o b (.interface k) sub)
-            (accAbsS e c _ _ (.interface k) sub (IH _) (fun t isub hm => IHI t isub hm _) hty.1.1 hty.1.2 hty.2 hesub hve hs b
-              (fd' + 3) (by omega)) _ hwf).2 v
+          rcases absOkL_cases hty.2 with ⟨hok, hlg⟩ | ⟨g, rfl, hokB⟩
+          · simp only [hlg] at henv ⊢
+            obtain ⟨hs, hve, hesub⟩ := henv
+            have hID : pfx ++ c.cs.camel (a.getD sf.name) ≠ "ID" := by
+              unfold AbsEnv at hs; split at hs
+              · exact hs.2.1
+              · exact hs.1.2.1
+            rw [deField_plain _ _ _ _ hID, looseLambdaAbsS]
+            exact (ok_iff_accepts _ _ (conformsLooseAbsS c.s c.q c.o b (.interface k) sub)
+              (accAbsS e c _ _ (.interface k) sub (IH _) (fun t isub hm => IHI t isub hm _) hty.1.1 hty.1.2 hok hesub hve hs b
+                (fd' + 3) (by omega)) _ hwf).2 v
+          · simp only [loneG_lone] at henv ⊢
+            obtain ⟨fr, hfr, _⟩ := fragOkB_parts hokB
+            simp only [hfr]
+            rw [deField_plain _ _ _ _ henv.1.2.1]
+            have hdep : depthsF c.q [Sel.spread g] = selsDepth fr.sels + 1 := by simp [depthsF, depthF, fragSels, hfr]
+            rw [hdep] at hfd
+            exact (ok_iff_accepts _ _ (conformsLooseAbs c.s c.o b (.interface k) fr.sels)
+              (accAliasB e c _ (.interface k) g fr hfr hty.1.1 hokB henv.1 henv.2 b (fd' + 3) (by omega)) _ hwf).2 v
         | union k =>
           simp only [hid, Bool.and_eq_true] at hty henv ⊢
           simp only [fieldOfSelV, hsf, leafNameV, hid, Option.some.injEq] at hf
           subst hf
-          obtain ⟨hs, hve, hesub⟩ := henv
-          have hID : pfx ++ c.cs.camel (a.getD sf.name) ≠ "ID" := by
-            unfold AbsEnv at hs; split at hs
-            · exact hs.2.1
-            · exact hs.1.2.1
-          rw [deField_plain _ _ _ _ hID, looseLambdaAbsS]
-          exact (ok_iff_accepts _ _ (conformsLooseAbsS c.s c.q c.o b (.union k) sub)
-            (accAbsS e c _ _ (.union k) sub (IH _) (fun t isub hm => IHI t isub hm _) hty.1.1 hty.1.2 hty.2 hesub hve hs b
-              (fd' + 3) (by omega)) _ hwf).2 v
+          rcases absOkL_cases hty.2 with ⟨hok, hlg⟩ | ⟨g, rfl, hokB⟩
+          · simp only [hlg] at henv ⊢
+            obtain ⟨hs, hve, hesub⟩ := henv
+            have hID : pfx ++ c.cs.camel (a.getD sf.name) ≠ "ID" := by
+              unfold AbsEnv at hs; split at hs
+              · exact hs.2.1
+              · exact hs.1.2.1
+            rw [deField_plain _ _ _ _ hID, looseLambdaAbsS]
+            exact (ok_iff_accepts _ _ (conformsLooseAbsS c.s c.q c.o b (.union k) sub)
+              (accAbsS e c _ _ (.union k) sub (IH _) (fun t isub hm => IHI t isub hm _) hty.1.1 hty.1.2 hok hesub hve hs b
+                (fd' + 3) (by omega)) _ hwf).2 v
+          · simp only [loneG_lone] at henv ⊢
+            obtain ⟨fr, hfr, _⟩ := fragOkB_parts hokB
+            simp only [hfr]
+            rw [deField_plain _ _ _ _ henv.1.2.1]
+            have hdep : depthsF c.q [Sel.spread g] = selsDepth fr.sels + 1 := by simp [depthsF, depthF, fragSels, hfr]
+            rw [hdep] at hfd
+            exact (ok_iff_accepts _ _ (conformsLooseAbs c.s c.o b (.union k) fr.sels)
+              (accAliasB e c _ (.union k) g fr hfr hty.1.1 hokB henv.1 henv.2 b (fd' + 3) (by omega)) _ hwf).2 v
         | input k => simp [hid] at hty
     | .spread g, pfx => by intro _ _ _ f hf; cases hf
     | .inline t sub, pfx => by intro _ _ _ f hf; cases hf
@@ -1552,6 +1606,29 @@ theorem strict_loose_absS (ty : TypeId) (sub : List Sel) (IHs : SLSelsS s q o su
   | str _ => simp [conformsV] at hc
   | arr _ => simp [conformsV] at hc
 
+/-- a response object conforming at an abstract position that is a lone spread of a fragment on the type itself is accepted
+    by the fragment's own type -/
+theorem slLoneB (ty : TypeId) (hty : absHyp s ty) (g : Nat) (fr : RFragment) (hfr : q.fragments[g]? = some fr)
+    (hok : fragOkB s q o ty g = true) (b : Bool) (j : Json)
+    (h : conformsAt s ty (expandSels q [Sel.spread g]) j = true) : conformsLooseAbs s o b ty fr.sels j = true := by
+  obtain ⟨fr', hfr', hon, _, hv, hokf⟩ := fragOkB_parts hok
+  rw [hfr] at hfr'; cases hfr'
+  simp only [conformsAt, List.any_eq_true, List.mem_range, Bool.and_eq_true] at h
+  obtain ⟨rt, hrt, happ, hc⟩ := h
+  cases j with
+  | obj kvs =>
+    simp only [conformsV, Bool.and_eq_true] at hc
+    obtain ⟨⟨hnd, _⟩, hconf⟩ := hc
+    simp only [expandSels, expandSel, hfr, confSelsV, confSelV, hon, happ, Bool.not_true, Bool.false_or,
+      Bool.and_true] at hconf
+    exact strict_loose_abs_w s o ty fr.sels hty hv hokf b rt kvs hrt happ (nodup_iff'.mp hnd) hconf
+  | null => simp [conformsV] at hc
+  | bool _ => simp [conformsV] at hc
+  | int _ => simp [conformsV] at hc
+  | num _ => simp [conformsV] at hc
+  | str _ => simp [conformsV] at hc
+  | arr _ => simp [conformsV] at hc
+
 mutual
   theorem slFieldS : ∀ (x : Sel) (abs b : Bool) (v : Json), sSel s q o abs x = true →
       strictFieldV s (expandSel q x) v = true → looseFieldS s q o b x v = true
@@ -1594,12 +1671,24 @@ mutual
             | arr _ => simp [conformsV] at hc
         | interface k =>
           simp only [hid, Bool.and_eq_true] at h hty ⊢
-          rw [looseLambdaAbsS]
-          exact (accepts_mono _ _ (fun j hj => strict_loose_absS s q o (.interface k) sub IHs IHp hty.1.1 hty.1.2 hty.2 b j hj) _).2 v h
+          rcases absOkL_cases hty.2 with ⟨hok, hlg⟩ | ⟨g, rfl, hokB⟩
+          · simp only [hlg]
+            rw [looseLambdaAbsS]
+            exact (accepts_mono _ _ (fun j hj => strict_loose_absS s q o (.interface k) sub IHs IHp hty.1.1 hty.1.2 hok b j hj) _).2 v h
+          · simp only [loneG_lone]
+            obtain ⟨fr, hfr, _⟩ := fragOkB_parts hokB
+            simp only [hfr]
+            exact (accepts_mono _ _ (fun j hj => slLoneB s q o (.interface k) hty.1.1 g fr hfr hokB b j hj) _).2 v h
         | union k =>
           simp only [hid, Bool.and_eq_true] at h hty ⊢
-          rw [looseLambdaAbsS]
-          exact (accepts_mono _ _ (fun j hj => strict_loose_absS s q o (.union k) sub IHs IHp hty.1.1 hty.1.2 hty.2 b j hj) _).2 v h
+          rcases absOkL_cases hty.2 with ⟨hok, hlg⟩ | ⟨g, rfl, hokB⟩
+          · simp only [hlg]
+            rw [looseLambdaAbsS]
+            exact (accepts_mono _ _ (fun j hj => strict_loose_absS s q o (.union k) sub IHs IHp hty.1.1 hty.1.2 hok b j hj) _).2 v h
+          · simp only [loneG_lone]
+            obtain ⟨fr, hfr, _⟩ := fragOkB_parts hokB
+            simp only [hfr]
+            exact (accepts_mono _ _ (fun j hj => slLoneB s q o (.union k) hty.1.1 g fr hfr hokB b j hj) _).2 v h
     | .spread _, _, _, _ => by intro _ _; simp [looseFieldS]
     | .inline _ _, _, _, _ => by intro _ _; simp [looseFieldS]
     | .typename, _, _, _ => by intro _ _; simp [looseFieldS]
